@@ -14,7 +14,7 @@ import random
 from concurrent.futures import ThreadPoolExecutor
 
 from . import common
-from .verifier_common import pick_instances
+from .verifier_common import pick_instances, ALL_INSTANCES
 from .c11 import shape_of
 from .c13 import common_of
 
@@ -69,8 +69,11 @@ def run(ctx):
             rnd.shuffle(missing)
             missing = sorted(missing[:48 if thorough else 16])
             ctx.extra["unchecked_leaves_" + inst] = missing[:16]
-            for i in range(0, len(missing), 4):
-                targeted.append({"part": "noncanon", "instance": inst, "k": k, "ks": KS, "paths": missing[i:i + 4], "shard": 900 + i, "nshards": 0, "stride": 1})
+            # ... on every available proof: whether value + k*p still fits below the next bound depends on the value (a proof-of-work
+            # witness of 1836 + p passes a 64-bit check, one of 2^60 + p does not)
+            for other in ALL_INSTANCES:
+                for i in range(0, len(missing), 4):
+                    targeted.append({"part": "noncanon", "instance": other, "k": k, "ks": KS, "paths": missing[i:i + 4], "shard": 900 + i, "nshards": 0, "stride": 1})
             continue
         if inst == insts[0]:
             recs = [json.loads(x) for x in open(cf)]
